@@ -175,10 +175,70 @@ def run_chain(c, txs, genesis, hists, procs, tag, all_upto, extra=None):
                     c.violation("chain/" + m["kind"], "%s (history %s step %s)" % (m["detail"], m["hist"], m["step"]),
                                 {"kind": "history", "txs": txs, "genesis": genesis, "hist": h, "all_upto": all_upto,
                                  "extra": extra, "mismatch": m})
+            judge_serve(c, [x["serve"] for x in lines if "serve" in x], os.path.basename(f), tot,
+                        lambda r: {"kind": "history", "txs": txs, "genesis": genesis, "hist": by_id[r["hist"]], "all_upto": all_upto,
+                                   "extra": extra, "serve": {k: r[k] for k in ("idx", "step", "phase", "main", "pfilters", "pfhash", "platest")}})
     # violations first: a history that stops after a mismatch also produces knock-on tool errors
     if terr and not c.violations:
         raise V.ToolError("c19 chain: %s" % terr[:3])
     return tot
+
+
+def judge_serve(c, recs, tag, tot, payload_of):
+    """Growth (FilterServe.tla): the answers of the real block-filter protocol handler to every start number, for every
+    recorded published snapshot, against what Judge_FilterServe.tla derives from that snapshot."""
+    if not recs:
+        return
+    wd = V.workdir(PID, "serve")
+    path = os.path.join(wd, "cases_%s_%d.ndjson" % (tag, os.getpid()))
+    with _SERVE_LOCK:
+        _SERVE_SEQ[0] += 1
+        path = os.path.join(wd, "cases_%s_%d.ndjson" % (tag, _SERVE_SEQ[0]))
+    keep = ("idx", "n", "parent", "number", "main", "pfilters", "pfhash", "platest")
+    with open(path, "w") as fh:
+        for r in recs:
+            fh.write(json.dumps({k: r[k] for k in keep}) + "\n")
+    res = V.tlc(PID, "Judge_FilterServe", "Judge_FilterServe.cfg", workers=1, env={"CASES": path}, timeout=900, coverage=False,
+                tag="judge_" + os.path.basename(path))
+    if res["violated"]:
+        raise V.ToolError("Judge_FilterServe: %s violated on recorded snapshots (%s)" % (res["violated"], path))
+    want = {j["idx"]: j for j in V.tlc_json_lines(res["out"], "J")}
+    if len(want) != len(recs):
+        raise V.ToolError("Judge_FilterServe judged %d of %d snapshots" % (len(want), len(recs)))
+    for r in recs:
+        w = want[r["idx"]]
+        fh, zero, main = r["fh"], r["zero"], r["main"]
+        probs = list(r["bad"])
+        for st in range(len(main) + 2):
+            # GetBlockFilters: the very blocks
+            a, e = r["filters"][st], w["filters"][st]
+            if a["k"] != e["k"] or (a["k"] != "ignored" and a["b"] != e["b"]):
+                probs.append("filters/start=%d: served %s, FilterServe.tla: %s" % (st, a, e))
+            # GetBlockFilterHashes: parent hash and the hashes of the blocks the specification names
+            a, e = r["hashes"][st], w["hashes"][st]
+            if a["k"] != e["k"]:
+                probs.append("hashes/start=%d: served %s, FilterServe.tla: %s" % (st, a["k"], e))
+            elif a["k"] != "ignored":
+                if a["h"] != [fh.get(str(b)) for b in e["b"]]:
+                    probs.append("hashes/start=%d: the served hashes are not those of blocks %s" % (st, e["b"]))
+                if a["parent"] != (zero if st == 0 else fh.get(str(main[st - 1]))):
+                    probs.append("hashes/start=%d: parent_block_filter_hash is not the filter hash of the block before" % st)
+            a, e = r["checkpoints"][st], w["checkpoints"][st]
+            if a["k"] != e["k"] or (a["k"] != "ignored" and a["h"] != [fh.get(str(b)) for b in e["b"]]):
+                probs.append("checkpoints/start=%d: served %s, FilterServe.tla: %s" % (st, a, e))
+        tot["serve_snapshots_judged"] = tot.get("serve_snapshots_judged", 0) + 1
+        if r["phase"] == "published" and (r["platest"] < 0 or r["platest"] != main[-1]):
+            tot["serve_published_lagging"] = tot.get("serve_published_lagging", 0) + 1
+        if r["platest"] >= 0 and r["platest"] not in main:
+            tot["serve_latest_off_main"] = tot.get("serve_latest_off_main", 0) + 1
+        if probs:
+            kind = probs[0].split("/")[0].split(":")[0]
+            c.violation("growth-filterserve/" + kind, "block-filter protocol server, history %s step %s (%s snapshot): %s" % (
+                r["hist"], r["step"], r["phase"], probs[0]), dict(payload_of(r), problems=probs[:6]))
+
+
+_SERVE_LOCK = __import__("threading").Lock()
+_SERVE_SEQ = [0]
 
 
 def run_race(c):
@@ -243,6 +303,8 @@ def _run(c, tier):
             ("MC_BlockFilter", "MC_BlockFilter_5.cfg", bf_acts, 4)]
     if not quick:
         jobs.append(("MC_BlockFilter", "MC_BlockFilter_5w.cfg", bf_acts, 6))      # works {1,3}: shorter-but-heavier reorgs under the builder
+    # growth: the block-filter protocol server on top of the builder (FilterServe.tla), works {1,2}
+    jobs.append(("MC_FilterServe", "MC_FilterServe_4.cfg" if quick else "MC_FilterServe_5.cfg", ["SNext", "SBuild"], 4))
     fut = [ex.submit(mc, *j) for j in jobs]
     # self-tests of the oracles and vacuity probe
     bug = V.tlc(PID, "MC_MMR", "MC_MMR_buggy.cfg", workers=2, timeout=600, coverage=False)
@@ -256,6 +318,12 @@ def _run(c, tier):
     if live["violated"] != "FilterComplete":
         raise V.ToolError("oracle self-test failed: LiveReads=TRUE does not violate FilterComplete (%s)" % live["violated"])
     c.set("selftest_live_store_reads_rejected_by", live["violated"])
+    # FilterServe.tla: the three states the header describes must be reachable (each "Never..." invariant must be violated)
+    for v in ("NeverLags", "NeverServesAbove0", "NeverIgnoresBuilt"):
+        r = V.tlc(PID, "MC_FilterServe", "MC_FilterServe_vac_%s.cfg" % v, workers=2, timeout=600, coverage=False)
+        if r["violated"] != v:
+            raise V.ToolError("vacuous model: FilterServe never reaches a state that violates %s (%s)" % (v, r["violated"]))
+    c.set("selftest_filterserve_reachable", ["served view lags the builder", "non-empty answer above start 0", "built block not served while the latest-built marker is off the main chain"])
     # ---- histories --------------------------------------------------------------------------------------------
     h4 = tlc_hists("MCH_MMR_4.cfg", tag="h4")
     hsim = tlc_hists("MCH_MMR.cfg", "num=%d" % (20 if quick else 80), 8, "hsim")
@@ -356,7 +424,8 @@ def _run(c, tier):
     c.set("exhaustive", True)
     need = {"reorgs": 1, "reorgs_deeper_than_1": 1, "reorgs_to_shorter_heavier": 1, "flawed_refused": 1, "proofs_rejected_on_sibling": 1,
             "input_script_hashes": 1, "positions": 1, "typed_input_under_repeated_lock": 1,
-            "epoch.digests_across_adjustment": 1, "epoch.reorgs": 1}
+            "epoch.digests_across_adjustment": 1, "epoch.reorgs": 1,
+            "serve_snapshots_judged": 1, "serve_nonempty_above0": 1, "serve_published_lagging": 1}
     miss = [k for k, v in need.items() if tot.get(k, 0) < v]
     if miss:
         raise V.ToolError("vacuous replay: %s (%s)" % (miss, tot))
